@@ -47,8 +47,9 @@ Lenient == Parse(Bytes)
 IsMember == Lenient.ok /\ Member(Lenient)
 Strict == SerializedOrigin(Bytes)
 StrictOK == Strict.ok /\ Allowed(Pats, [scheme |-> Strict.scheme, host |-> Strict.host, port |-> Strict.port])
-\* shape of known finding F4: the host is in brackets but the string is not the serialization of an origin
-F4Shape == Len(tail) >= 1 /\ tail[1] = 91 /\ ~Strict.ok
+\* shape of known finding F4: the host is in brackets (and its content is found in the tree although the bytes are
+\* not the serialization of an allowed origin)
+F4Shape == Len(tail) >= 1 /\ tail[1] = 91
 
 ParseInBounds == Lenient.inb
 LenientSound == IsMember => (StrictOK \/ F4Shape)
